@@ -28,15 +28,15 @@ structure IfaceSpec where
   methods : List MethodSpec
   deriving Repr, DecidableEq, Inhabited
 
-/-- the name a parameter goes by on the wire -/
+/-- the name a parameter goes by on the wire (should the directive name it twice: the later pair) -/
 def aliasOf (m : MethodSpec) (p : String) : String :=
-  match m.alias.find? (fun kv => kv.1 = p) with
+  match m.alias.reverse.find? (fun kv => kv.1 = p) with
   | some kv => kv.2
   | none => p
 
 /-- the parameter a placeholder / wire name stands for: the one aliased to it, else the one called so -/
 def resolve (m : MethodSpec) (n : String) : String :=
-  match m.alias.find? (fun kv => kv.2 = n) with
+  match m.alias.reverse.find? (fun kv => kv.2 = n) with
   | some kv => kv.1
   | none => n
 
@@ -137,7 +137,7 @@ code's choice depends on Go's map order) ; every placeholder stands for a non-po
 parameter (a placeholder naming an aliased parameter by its Go name has no agreed meaning); every
 `{` of the path starts a placeholder; struct field names distinct; no qualified scalar on a body verb. -/
 
-def distinct (l : List String) : Bool := l.eraseDups.length == l.length
+def distinct (l : List String) : Bool := decide l.Nodup
 
 def isScalarParam (p : Param) : Bool :=
   match p.kind with
@@ -180,7 +180,7 @@ def methodStructOk (m : MethodSpec) : Bool :=
   m.alias.all (fun kv => !kv.2.isEmpty) &&
   pathClean m.path &&
   (placeholders m.path).all (fun n => placeholderOk m (String.ofList n)) &&
-  m.params.all (fun p => distinct ((fieldsOf p).map (·.name))) &&
+  m.params.all (fun p => distinct ((fieldsOf p).map (·.name)) && (fieldsOf p).all (fun f => !(fieldKey f).isEmpty)) &&
   !(m.verb.hasBody && m.params.any isQualOther)
 
 def hasCtx (m : MethodSpec) : Bool := m.params.any isCtxParam
